@@ -207,6 +207,8 @@ def run(ctx: Ctx) -> None:
     r.floor(3)
 
     once_rule(ctx)
+    from .c10 import perset_rule
+    perset_rule(ctx, "R09.perset")
     from ..siblingrule import sibling_rule
     from ..wiring import wiring_rule
     sibling_rule(ctx, "R09.sib", mode="accounting")
